@@ -91,6 +91,9 @@ func FlavorOf(caseIdx int) string {
 	if caseIdx%5 == 4 {
 		return "dup-transfer"
 	}
+	if caseIdx%5 == 2 {
+		return "stale-leader-read"
+	}
 	return ""
 }
 
@@ -115,6 +118,28 @@ func GenPlan(rng *rand.Rand, thorough bool, flavor string) Plan {
 		p.Steps = append(p.Steps, Step{AfterOps: 1, Action: "net-faults", Dup: 0.5, Delay: 2})
 		for at := 3 + rng.Intn(4); at < total-4; at += 3 + rng.Intn(6) {
 			p.Steps = append(p.Steps, Step{AfterOps: at, Action: "transfer-leader", Region: rng.Intn(p.Regions), Store: rng.Intn(3)})
+		}
+		return p
+	}
+	if flavor == "stale-leader-read" {
+		// targeted pattern: the leader is isolated again and again while half of
+		// all calls go to a random store, so the isolated ex-leader keeps receiving
+		// reads while the majority side elects a new leader and acknowledges
+		// writes; leadership also moves by transfer so that freshly elected
+		// leaders serve reads while they still apply their backlog.
+		p.Flavor = flavor
+		p.StrayPct = 55
+		p.WritePct = 50
+		at := 3 + rng.Intn(4)
+		for at < total-6 {
+			p.Steps = append(p.Steps, Step{AfterOps: at, Action: "partition-leader", Region: rng.Intn(p.Regions)})
+			at += 10 + rng.Intn(10)
+			p.Steps = append(p.Steps, Step{AfterOps: at, Action: "heal"})
+			at += 3 + rng.Intn(5)
+			if rng.Intn(2) == 0 {
+				p.Steps = append(p.Steps, Step{AfterOps: at, Action: "transfer-leader", Region: rng.Intn(p.Regions), Store: rng.Intn(3)})
+				at += 3 + rng.Intn(5)
+			}
 		}
 		return p
 	}
